@@ -9,7 +9,8 @@ import (
 )
 
 // cmdRun executes a file of scenarios and writes one ndjson trace:
-//   def_names, def_norm, def_batch*, then per scenario: reset, events..., end.
+//
+//	def_names, def_norm, def_batch*, then per scenario: reset, events..., end.
 func cmdRun(scPath, trPath string) {
 	fs := flag.NewFlagSet("run", flag.ExitOnError)
 	fs.Parse(os.Args[4:])
